@@ -7,7 +7,7 @@ run() { # name patch command...
   name=$1; patch=$2; shift; shift
   echo "=== $name ($(date +%T))" >> $P/probes.log
   /verif/tools/mutrun "$patch" -- "$@" > $P/log-$name.txt 2>&1
-  echo "exit=$? ; $(grep -h -E 'VIOLATION|KNOWN-FINDING|quick:|BUILD-FAILED|exited with' $P/log-$name.txt | cut -c1-220 | tr '\n' '|')" >> $P/probes.log
+  echo "[$name] exit=$? ; $(grep -h -E 'VIOLATION|KNOWN-FINDING|quick:|BUILD-FAILED|exited with' $P/log-$name.txt | cut -c1-220 | tr '\n' '|')" >> $P/probes.log
 }
 for job in "$@"; do
 case $job in
